@@ -36,6 +36,16 @@ class Ctx:
     def __init__(self, pre, post, args, kind, ret, S, step=None):
         self.pre, self.post, self.args, self.kind, self.ret, self.S, self.step = pre, post, args, kind, ret, S, step
 
+    h = None
+    schema = None
+
+    def ret_as(self, ty):
+        """returned Ok(tuple) viewed as the harness-defined wrapper struct `ty` (engine: tuple fields; native: JSON object)"""
+        r = self.retval()
+        if isinstance(r, Struct):
+            return VAcc(self.h, Struct(ty, r.fields))
+        return JAcc(self.schema, ty, r)
+
     def retval(self):
         """payload of the returned Ok(..) (engine value or native JSON number)"""
         r = self.ret
@@ -48,8 +58,9 @@ class Ctx:
 
 class Case:
     def __init__(self, name, prop, recv_ty, recv, calls, assume, claims, bounds=None, notes=None, functions=None,
-                 expect_ok=True, max_paths=4000, loop_bound=40, timeout_ms=20000, free_fn=False, stubs=None, extra_syms=(), check_side=True):
+                 expect_ok=True, max_paths=4000, loop_bound=40, timeout_ms=20000, free_fn=False, stubs=None, extra_syms=(), check_side=True, ret_ty=None):
         self.check_side = check_side
+        self.ret_ty = ret_ty  # harness wrapper struct naming the fields of a returned tuple (translator validation compares it field by field)
         self.stubs = stubs or {}
         self.extra_syms = tuple(extra_syms)
         self.name, self.prop, self.recv_ty, self.recv, self.calls = name, prop, recv_ty, recv, calls
@@ -168,6 +179,7 @@ def run_case(case, mir, schema, native=None, quick=True):
             if o.kind == "ret":
                 ret = o.val
             ctx = Ctx(pre, post, call_args, k, ret, S, ci)
+            ctx.h, ctx.schema = h, schema
             if k == "panic":
                 ok_reach, m = h.reachable(o)
                 if ok_reach is None and any(cl.when == "nopanic" for cl in case.claims):
@@ -292,6 +304,7 @@ def replay(case, b, schema, model, claim, native, claim_name):
         out["note"] = f"native outcome kind {kind} differs from the symbolic path kind {claim.when}"
         return out
     ctx = Ctx(pre, post, argv, kind, resp.get("ret"), S, resp.get("step"))
+    ctx.schema = schema
     try:
         val = claim.fn(ctx)
     except KeyError as e:
